@@ -541,6 +541,41 @@ func (env *SpecEnv) call(e *SExpr) SpecVal {
 				return SpecVal{t: Ite(App(">=", SBool, a.t, RealLit(0)), App("to_int", SInt, a.t), App("-", SInt, App("to_int", SInt, App("-", SReal, a.t)))), typ: tInt}
 			}
 			return SpecVal{t: a.t, typ: tInt}
+		case "post", "pre":
+			// post(pkg.Func, label, args...): the named ensures (requires) clause of a contract, instantiated
+			if len(args) < 2 {
+				env.fail("post(pkg.Func, label, args...) expected")
+			}
+			key := strings.Trim(args[0].String(), "()")
+			fi, ok := x.prog.Funcs[key]
+			if !ok || fi.Spec == nil {
+				env.fail("post(): no contract for %s", key)
+			}
+			label := args[1].Name
+			var cl *Clause
+			list := fi.Spec.Ensures
+			if fn.Name == "pre" {
+				list = fi.Spec.Requires
+			}
+			for i, c := range list {
+				if c.Name == label || fmt.Sprint(i+1) == label {
+					cl = c
+				}
+			}
+			if cl == nil {
+				env.fail("post(): contract of %s has no clause %s", key, label)
+			}
+			ps := x.paramVars(fi)
+			if len(args)-2 != len(ps) {
+				env.fail("post(%s): %d arguments given for %d parameters", key, len(args)-2, len(ps))
+			}
+			sub := &SpecEnv{x: x, cur: env.cur, old: env.cur, vars: map[string]SpecVal{}, pkg: fi.Pkg.Types, mode: 0}
+			for i, p := range ps {
+				v := env.eval(args[2+i])
+				sub.vars[p.Name()] = SpecVal{t: x.coerce(v.t, p.Type()), typ: p.Type()}
+			}
+			x.used[key+" (clause "+label+" used as lemma hypothesis)"] = true
+			return SpecVal{t: sub.evalBool(cl.Expr), typ: tBool}
 		case "idx":
 			// idx() : hidden index of the innermost unnamed range loop
 			return env.ident("#idx")
